@@ -69,6 +69,8 @@ def handle (prop : String) (line : String) : String :=
     let v : Verdict :=
       match op with
       | "buildv" => opBuildV args res
+      | "buildvh" => opBuildV (args.take 4) res   -- same configuration, reached on a reused builder
+      | "buildh" => opBuild prop (args.take 5) res
       | "classify" => opClassify args res
       | "build" => opBuild prop args res
       | "buildx" =>
